@@ -973,6 +973,9 @@ fn mutate(e: &mut Expr, target: &mut i64, nv: Num) {
 }
 
 /// Generate program number `k` of a package. `oob`: append a final read at an out-of-bounds dynamic index.
+/// Stable entry point for other harness binaries (C07): an ordinary program of the plain stream.
+pub fn gen_plain_program(r: &mut Rng, k: usize) -> Program { gen_program(r, k, false, false, false) }
+
 pub fn gen_program(r: &mut Rng, k: usize, oob: bool, aggsel: bool, selfupd: bool) -> Program {
     let p_opq = *r.pick(&[0u64, 0, 25, 60, 100]);
     let widths = match r.below(6) {
